@@ -1379,7 +1379,15 @@ impl ParserState {
         }
         trace!("force_bytes lexer_stack {}", self.lexer_stack.len());
         self.with_items_limit(self.limits.step_max_items, "ff_tokens", |s| {
+            // Bound the number of bytes forced in one go: a greedy lexeme followed by a lexeme
+            // it swallows (e.g. A A with A: /(ab)+/) forces bytes for ever without ever
+            // creating an Earley item, so the items limit alone never ends this loop.
+            let mut budget = s.limits.step_max_items;
             while let Some(b) = s.forced_byte() {
+                if budget == 0 {
+                    break;
+                }
+                budget -= 1;
                 debug!("  forced: {:?} 0x{:x}", b as char, b);
                 if b == TokTrie::SPECIAL_TOKEN_MARKER {
                     assert!(!s.has_pending_lexeme_bytes());
